@@ -259,6 +259,49 @@ pub fn run(case: &JobCase) -> Outcome {
 	o
 }
 
+pub fn run_mt(c: &super::c04::MtCase) -> Outcome {
+	let mut o = Outcome::pass();
+	let trace = crate::jobdrive::run_case_mt(&c.case, c.senders, 3_000);
+	o.nontrivial = c.case.steps.iter().any(|s| s.waiters >= 2);
+	let term = c.case.steps.iter().any(|s| matches!(s.op, Op::Delete | Op::DeleteNow));
+	if term {
+		o.label("terminated");
+	}
+	let dump = || format!("\ncase {c:?}\nsteps: {:?}\ntask_end {:?}\nlog: {}", trace.steps, trace.task_end, jobgen::fmt_log(&trace));
+	if let Some((t, true)) = trace.task_end {
+		o.fail("task-panic", format!("job task panicked at {t} ms{}", dump()));
+		return o;
+	}
+	if term && trace.task_end.is_none() {
+		o.fail("task-not-ended:after-delete", format!("the job was deleted but its task is still running once everything is quiet{}", dump()));
+		return o;
+	}
+	for (i, so) in trace.steps.iter().enumerate() {
+		if !so.sent {
+			continue;
+		}
+		if so.waiters.iter().any(Option::is_none) {
+			let some = so.waiters.iter().any(Option::is_some);
+			o.fail(
+				if some { "waiters-diverge:only-some-waiters-of-one-ticket-wake".to_string() } else { format!("ticket-never-resolves:{}", c.case.steps[i].op.name()) },
+				format!("step {i} ({:?}): waiter completion instants {:?} after every process has ended and 3 s of waiting{}", c.case.steps[i].op, so.waiters, dump()),
+			);
+			return o;
+		}
+		if so.behind_ticket == Some(None) {
+			o.fail("marker-ticket-late", format!("ticket of the marker behind step {i} never resolved{}", dump()));
+			return o;
+		}
+		let n = trace.markers.iter().filter(|m| m.step == i && m.behind).count();
+		// with a termination in the case, closures queued behind it are dropped unrun (their tickets still resolve)
+		if n > 1 || (n == 0 && !term) {
+			o.fail(if n == 0 { "marker-never-ran" } else { "marker-ran-twice" }, format!("marker behind step {i} ran {n} times{}", dump()));
+			return o;
+		}
+	}
+	o
+}
+
 pub fn check(e: &Engine) {
 	e.assume("simulated children via the public spawn hook, paused tokio clock (ms ticks), current-thread runtime with generated select! seed");
 	e.assume("completion bound of a control = execution instant of a run() marker queued right behind it (relies on per-priority FIFO, checked separately by C10)");
@@ -270,6 +313,20 @@ pub fn check(e: &Engine) {
 		),
 		&|| jobgen::job_case(jobgen::Profile::Tickets).boxed(),
 		&run,
+	);
+	e.explore(
+		"multi-thread",
+		LegOpts {
+			cases: e.tier.pick(200, 4_000),
+			shards: 8,
+			threads: 8,
+			confirm: 1,
+			max_shrink_iters: 10,
+			rule: "2-4 concurrent sender tasks on a multi-thread runtime with real millisecond timers, 1-3 waiter tasks per ticket, a marker behind every control; every child exits by itself, so once the run is quiet (polled, at most 3 s) every ticket of every waiter must have resolved, every closure must have run exactly once and the task must not have panicked",
+			confirm_any: &[],
+		},
+		&|| (jobgen::mt_case(), 2usize..5).prop_map(|(c, n)| super::c04::MtCase { case: c, senders: n }).boxed(),
+		&run_mt,
 	);
 	e.require_label("tickets", "multi-waiter", 0.2);
 	e.require_label("tickets", "termination", 0.1);
